@@ -56,6 +56,25 @@ crate::ks_harness! {
     }
 }
 
+/// `KeySetProvider::new(h)`: one fresh key, id offset 0, primary 0, history h.
+crate::ks_harness_spec! {
+    #[kani::unwind(10)]
+    fn c26_new() {
+        let keys = symbolic_keys(1);
+        let h: usize = kani::any();
+        let p = KeySetProvider::new(h);
+        let ks = p.get();
+        assert!(kh::keyset_len(&ks) == 1 && kh::keyset_primary(&ks) == 0 && kh::keyset_id_offset(&ks) == 0, "fresh provider: one key, primary 0, id offset 0");
+        assert!(kh::provider_history(&p) == h, "configured history kept");
+        if model_active() {
+            assert!(eq64(kh::keyset_key_bytes(&ks, 0), &keys[0]), "the key is the one drawn from the random source");
+        }
+        kani::cover!(h == 0, "history 0");
+        std::mem::forget(ks);
+        std::mem::forget(p);
+    }
+}
+
 // ------------------------------------------------------------------ rotation window
 /// Largest number of rotations explored.
 const R: usize = 5;
@@ -259,7 +278,9 @@ fn tamper_body(alg512: bool) {
     let failed = dec.is_err();
     std::mem::forget(dec);
     assert!(failed, "a cookie modified inside its declared length must not decode");
-    kani::cover!(pos < 4 && (enc[3] ^ mask) == enc[3].wrapping_sub(1), "key id changed to the other valid key");
+    let new_id = u32::from_be_bytes([enc[0], enc[1], enc[2], enc[3]]);
+    kani::cover!(pos < 4 && new_id == off, "key id changed to the other valid key (id offset, the older key)");
+    kani::cover!(pos < 4 && new_id != off, "key id changed to an unknown id");
     kani::cover!(pos == 5, "length field changed");
     kani::cover!(pos >= 6 && pos < 22, "nonce changed");
     kani::cover!(pos >= 22 && pos < declared - 16, "ciphertext body changed");
